@@ -537,3 +537,32 @@ func plain(v reflect.Value, onPath map[uintptr]bool, depth int, path string) str
 
 func Concrete(n int) int       { return n }
 func IsSymbolic(v any) bool    { return false }
+
+// RunReplay runs a harness natively on the inputs of VERIF_REPLAY and prints
+// the outcome lines parsed by `gosym replay`.
+func RunReplay(f func()) {
+	if f == nil {
+		fmt.Println("VERIF-MISMATCH unknown harness")
+		return
+	}
+	defer func() {
+		r := recover()
+		for _, l := range Failures {
+			fmt.Println("VERIF-FAIL " + l)
+		}
+		for _, l := range Reached {
+			fmt.Println("VERIF-REACH " + l)
+		}
+		switch r := r.(type) {
+		case nil:
+		case AssumeFailed:
+			fmt.Println("VERIF-ASSUME-FAILED")
+		case ReplayMismatch:
+			fmt.Println("VERIF-MISMATCH " + r.Msg)
+		default:
+			fmt.Printf("VERIF-PANIC %v\n", r)
+		}
+		fmt.Println("VERIF-DONE")
+	}()
+	f()
+}
